@@ -103,28 +103,40 @@ type rcClient struct {
 }
 
 type rcDriver struct {
-	x       *sched.Exec
-	sc      rcScenario
-	mu      sync.Mutex
-	rc      *refcount.RefCount[int]
-	tgt     *ccontainer.CContainer[int]
-	tgtErr  *ccontainer.CContainer[*error]
-	ctxs    []context.Context
-	cancels []context.CancelFunc
-	ctl     *sched.Actor
-	nres    int
-	res     map[int]*rcRes
-	nextID  int
-	cl      []*rcClient
-	byName  map[string]*rcClient
-	helper  *rcClient
-	aborted bool
-	phase   int
-	held    []func() // release functions of every reference handed out (teardown)
-	heldID  []int
-	dropped map[int]bool
-	lastQ   int
-	curCtx  int
+	x                  *sched.Exec
+	sc                 rcScenario
+	mu                 sync.Mutex
+	rc                 *refcount.RefCount[int]
+	tgt                *ccontainer.CContainer[int]
+	tgtErr             *ccontainer.CContainer[*error]
+	ctxs               []context.Context
+	cancels            []context.CancelFunc
+	wantRoot, rootDone bool
+	ctl                *sched.Actor
+	nres               int
+	res                map[int]*rcRes
+	nextID             int
+	cl                 []*rcClient
+	byName             map[string]*rcClient
+	helper             *rcClient
+	aborted            bool
+	phase              int
+	held               []func() // release functions of every reference handed out (teardown)
+	heldID             []int
+	dropped            map[int]bool
+	lastQ              int
+	curCtx             int
+}
+
+// nActive: resolver calls currently inside the resolver (d.mu is held by the caller: moves())
+func (d *rcDriver) nActive() int {
+	n := 0
+	for _, rs := range d.res {
+		if rs.active {
+			n++
+		}
+	}
+	return n
 }
 
 func init() { Register("refcount", func() Driver { return &rcDriver{} }) }
@@ -588,6 +600,7 @@ func (d *rcDriver) Run(x *sched.Exec, raw json.RawMessage) json.RawMessage {
 		d.cancels = append(d.cancels, cancel)
 	}
 	x.Policy = d.policy
+	d.wantRoot = raw == nil && x.Rng.Intn(4) == 0
 	d.tgt = ccontainer.NewCContainer[int](0)
 	d.tgtErr = ccontainer.NewCContainer[*error](nil)
 	d.rc = refcount.NewRefCount[int](nil, sc.Keep, d.tgt, d.tgtErr, d.resolver)
@@ -650,6 +663,16 @@ func (d *rcDriver) Run(x *sched.Exec, raw json.RawMessage) json.RawMessage {
 			}
 		}
 		d.mu.Unlock()
+		// (seeded executions only) the client cancels the root context it gave to SetContext while a
+		// resolver call is in flight: the call's result must still be stored and delivered
+		if d.phase == 0 && d.wantRoot && !d.rootDone && len(x.Sched) == 0 && d.curCtx != 0 && d.nActive() > 0 {
+			k := d.curCtx
+			ms = append(ms, sched.Move{Label: "rootcancel", Do: func() {
+				d.rootDone = true
+				x.Log(trace.E{"ev": "rootcancel", "k": k})
+				d.cancels[k-1]()
+			}})
+		}
 		for _, c := range d.cl {
 			c := c
 			if c.incb && c.cbpark != nil && c.cbpark.Active() {
